@@ -48,10 +48,11 @@ MapSeq(s, F(_)) == [i \in 1..Len(s) |-> F(s[i])]
 NormNet(n) == [upd |-> MapSeq(n.upd, NormUpd), mut |-> MapSeq(n.mut, NormMut), ack |-> n.ack,
                rxUpd |-> MapSeq(n.rxUpd, NormUpd), rxMut |-> MapSeq(n.rxMut, NormMut), srxAck |-> n.srxAck]
 
-NormCli(o, lastNotDisc) ==
+NormCli(o, lastNotDisc, preUsed) ==
     [status |-> o.status, updTick |-> o.updTick,
      ents |-> [e \in DOMAIN o.ents |-> [alive |-> o.ents[e].alive, marker |-> o.ents[e].marker,
-                                         comps |-> o.ents[e].comps, hist |-> o.ents[e].hist]],
+                                         comps |-> o.ents[e].comps, hist |-> o.ents[e].hist, pre |-> o.ents[e].pre]],
+     pre |-> o.pre, preUsed |-> preUsed, extra |-> o.extra,
      buf |-> MapSeq(o.buf, LAMBDA b : [upd |-> b.upd, tick |-> b.tick, cnt |-> b.cnt, ents |-> b.ents, idx |-> b.idx]),
      lastNotDisc |-> lastNotDisc, panicked |-> o.panicked]
 
@@ -66,7 +67,7 @@ StateOf(post, pred) ==
               removalBuf |-> [e \in DOMAIN post.srv.removalBuf |-> ToSet(post.srv.removalBuf[e]) \cap P!Comp],
               cl |-> [c \in Clients |-> NormSrvCl(post.srv.cl[c])]],
      net |-> [c \in Clients |-> NormNet(post.net[c])],
-     cli |-> [c \in Clients |-> NormCli(post.cli[c], pred.cli[c].lastNotDisc)],
+     cli |-> [c \in Clients |-> NormCli(post.cli[c], pred.cli[c].lastNotDisc, pred.cli[c].preUsed)],
      \* events: the channels are observed, the buffers inside the apps are carried over
      ev |-> [pred.ev EXCEPT !.net = [c \in Clients |-> post.ev.net[c]]]]
 
@@ -75,7 +76,7 @@ StateOf(post, pred) ==
 
 ClFields == {"conn", "auth", "updTick", "mutTick", "inflight", "nextIdx", "vis", "pendingMap"}
 NetFields == {"upd", "mut", "ack", "rxUpd", "rxMut", "srxAck"}
-CliFields == {"status", "updTick", "ents", "buf", "panicked"}
+CliFields == {"status", "updTick", "ents", "buf", "panicked", "pre", "extra"}
 EvNetFields == {"sev", "rxSev", "cev", "srxCev"}
 SrvFields == {"tick", "frame", "running", "now", "world", "despawnBuf", "removalBuf"}
 
@@ -125,6 +126,9 @@ Predict(cur, r) ==
          [] r.ev = "EmitC"      -> Plain(P!EmitCF(cur, a.c, [t |-> a.t, id |-> a.id, e |-> a.e]), TRUE)
          [] r.ev = "DeliverEvS" -> Plain(P!DeliverEvSF(cur, a.c, a.t, a.pos + 1), P!DeliverEvSEnabled(cur, a.c, a.t, a.pos + 1))
          [] r.ev = "DeliverEvC" -> Plain(P!DeliverEvCF(cur, a.c, a.t, a.pos + 1), P!DeliverEvCEnabled(cur, a.c, a.t, a.pos + 1))
+         [] r.ev = "Prespawn"   -> Plain(P!PrespawnF(cur, a.c, a.p), P!PrespawnEnabled(cur, a.c, a.p))
+         [] r.ev = "KillPre"    -> Plain(P!KillPreF(cur, a.c, a.p), P!KillPreEnabled(cur, a.c, a.p))
+         [] r.ev = "MapPre"     -> Plain(P!MapPreF(cur, a.c, a.e, a.p), P!MapPreEnabled(cur, a.c, a.e, a.p))
          [] r.ev = "Stop"       -> Plain(P!StopEvF(P!StopF(cur)), P!StopEnabled(cur))
          [] r.ev = "Start"      -> Plain(P!StartF(cur), P!StartEnabled(cur))
          [] r.ev = "Authorize"  -> Plain(P!AuthorizeF(cur, a.c), cur.srv.cl[a.c].conn)
@@ -145,12 +149,12 @@ vars == <<l, cur, g, ge, nd, nv>>
 
 Init == l = 1 /\ cur = P!InitStateE /\ g = P!GhostInit /\ ge = P!EvGhostInit /\ nd = 0 /\ nv = 0
 
-GhostStep(gg, r, obs, ran) ==
+GhostStep(gg, r, pre, obs, ran) ==
     LET sentNow == Len(SelectSeq(r.obs.sent, LAMBDA x : x.ch = "upd" \/ x.ch = "mut"))
         g1 == IF r.ev = "SrvFrame" THEN [gg EXCEPT !.sentAtRest = sentNow] ELSE gg
-        g2 == IF r.ev = "SrvFrame" /\ ran THEN P!GhostSnap(g1, obs) ELSE g1
+        g2 == IF r.ev = "SrvFrame" /\ ran THEN P!GhostSnap(P!GhostMaps(g1, pre, obs), obs) ELSE g1
         g3 == IF r.ev = "SetVis" THEN P!GhostSetVis(g2, r.args.c, r.args.e, r.args.v) ELSE g2
-        g4 == IF r.ev = "Connect" THEN [g3 EXCEPT !.lastSet[r.args.c] = <<>>] ELSE g3
+        g4 == IF r.ev = "Connect" THEN [g3 EXCEPT !.lastSet[r.args.c] = <<>>, !.mapsSent[r.args.c] = {}] ELSE g3
         \* a restarted server counts its ticks from 0 again: the snapshots of the old run are void
         g5 == IF r.ev = "Stop" THEN [g4 EXCEPT !.snap = <<>>, !.visAt = <<>>] ELSE g4
     IN g5
@@ -194,7 +198,7 @@ EvGhostStep(gg, r, pre, obs) ==
 Violations(r, old, obs, gg, gePre, geNew) ==
     {p \in {"C01", "C02", "C02mono", "C03", "C03mono", "C08data", "C08query", "C11rest", "panic",
             "C04stamp", "C04delivery", "C05recipients", "C05delivery", "C05complete", "C05server", "C05serverComplete",
-            "C07unauth"} :
+            "C07unauth", "C16"} :
         CASE p = "C01"      -> r.ev = "Quiesce" /\ ~P!C01_AtQuiescence(obs)
           [] p = "C02"      -> ~P!C02(obs, gg)
           [] p = "C02mono"  -> r.ev # "Init" /\ ~P!C02_MonoStep(old, obs)
@@ -203,6 +207,7 @@ Violations(r, old, obs, gg, gePre, geNew) ==
           [] p = "C08data"  -> ~P!C08_Data(obs, gg)
           [] p = "C08query" -> ~P!C08_Query(obs, gg)
           [] p = "C11rest"  -> r.ev = "AtRest" /\ ~P!C11_SilentAtRest(gg)
+          [] p = "C16"      -> ~P!C16(obs, gg)
           [] p = "C04stamp" -> r.ev = "SrvFrame" /\ ~P!C04_Stamp(obs, SentEv(r))
           [] p = "C04delivery" -> r.ev = "CliFrame" /\ ~P!C04_Delivery(obs, gePre, r.args.c, CliDeliveries(r))
           [] p = "C05recipients" -> r.ev = "SrvFrame" /\ ~P!C05_Recipients(old, geNew, SentEv(r))
@@ -223,7 +228,7 @@ Step ==
            geBase == IF isInit THEN P!EvGhostInit ELSE ge
        IN \E pr \in {Predict(base, r)} :
           \E obs \in {StateOf(r.post, pr.st)} :
-          \E g1 \in {GhostStep(IF isInit THEN P!GhostInit ELSE g, r, obs, pr.ran)} :
+          \E g1 \in {GhostStep(IF isInit THEN P!GhostInit ELSE g, r, base, obs, pr.ran)} :
           \E ge1 \in {EvGhostStep(geBase, r, base, obs)} :
             LET ds == Diffs(pr.st, obs) \cup (IF pr.ok THEN {} ELSE {<<"enabled", r.ev, "-">>}) \cup DeliveryDiff(r, pr)
                 vs == Violations(r, base, obs, g1, geBase, ge1)
